@@ -160,6 +160,15 @@ func buildContainer(t tableCase, router string, order [][2]int, cell **obsCell) 
 		rs := t.Services[wi].Routes[ri]
 		wcopy, rcopy := wi, ri
 		rb := ws.Method(rs.M).Path(rs.P).To(func(req *restful.Request, resp *restful.Response) {
+			if nest := req.Request.Header.Get("X-Nest"); nest != "" {
+				// a handler that dispatches a sub-request on the same container before it looks at
+				// its own request (batch endpoints do this)
+				if parts := strings.SplitN(nest, " ", 2); len(parts) == 2 {
+					if hr2, err := buildRequest(parts[0], parts[1], nil, nil, false); err == nil {
+						safely(func() { c.Dispatch(httptest.NewRecorder(), hr2) })
+					}
+				}
+			}
 			h := hit{ws: wcopy + 1, rt: rcopy + 1, params: map[string]string{}, selp: req.SelectedRoutePath()}
 			for k, v := range req.PathParameters() {
 				h.params[k] = v
@@ -411,6 +420,24 @@ func runRoute(planPath, outPath string, seed int64) {
 			}
 			if len(pd.outs) > 0 {
 				pend = append(pend, pd)
+			}
+		}
+		if p.Conc > 0 && len(pend) > 1 {
+			// nested dispatch: request i is handled by a function that first dispatches request i+1
+			for _, v := range variants {
+				if v.perm != 0 {
+					continue
+				}
+				for i, pd := range pend {
+					other := pend[(i+1)%len(pend)].rq
+					rq := pd.rq
+					rq.Hdr = map[string]string{"X-Nest": other.M + " " + other.Path}
+					hr, err := rq.httpRequest(false)
+					if err != nil {
+						continue
+					}
+					record(pd, observe(v.c, "D", hr, &cell), []interface{}{v.router, v.perm, 0, "N"})
+				}
 			}
 		}
 		if p.Conc > 0 && len(pend) > 1 {
